@@ -1,7 +1,7 @@
 # -*- coding: utf-8 -*-
 """C05 - load then save preserves a package produced by any application.
 
-proof:          lean/OdfModel/Props/C05.lean (fix_identity, fix_w1_ok, fix_w2_text_untouched, fix_w4_ok, section_attributes_kept, extras_carried, sections_preserved_partial) about lean/OdfModel/LoadSax.lean (LoadParser, __fixXmlPart, the manifest
+proof:          lean/OdfModel/Props/C05.lean (fix_identity, fix_w1_ok, fix_w2_text_untouched, fix_w4_ok, section_attributes_kept, sections_preserved_partial; extras_carried parked in Props/C05Extras.lean until the package layer provides the general theorem) about lean/OdfModel/LoadSax.lean (LoadParser, __fixXmlPart, the manifest
                 dispatch of load)
 correspondence: __fixXmlPart on the text of every part of every package (real function vs `fixxml` of drv_load);
                 the SAX event stream of every part (xml.sax + recording handler, after the real __fixXmlPart) fed to
@@ -388,7 +388,7 @@ def run(chk, replay=None):
     chk.assumptions += [
         "C05 is PARTIAL by construction: the text of a foreign part becomes a SAX event stream through expat (trusted: a conforming XML 1.0 + Namespaces processor; it rejects a start tag that names an attribute twice); the Lean model starts from the event stream",
         "attribute converters (Element.setAttrNS -> AttrConverters.convert) are a parameter of the load model: the harness applies the real converter to the recorded events (C15 checks them)",
-        "the manifest dispatch of load()/save() is the model lean/OdfModel/Pkg.lean, tied to the code by the correspondence of C03/C16 (drv_pkg); extras_carried is proved about that model",
+        "the manifest dispatch of load()/save() (pictures, objects at any depth, opaque extras) is modelled in lean/OdfModel/Pkg.lean and tied to the code by C03/C16 (drv_pkg); the statement extras_carried is checked here by the oracle on every package, its proof is parked (Props/C05Extras.lean) until re-pointed to the package layer's general theorem",
     ]
     chk.notes.append('oracle: source package vs re-saved package, both read with zipfile + expat only (harness/loadcommon.py); '
                      'signatures are predicates on the SOURCE package (fix_analysis, style_names, nested_section, object_sig, rejected_values)')
